@@ -22,6 +22,7 @@ import (
 
 	"verif/internal/ev"
 	"verif/internal/fmtread"
+	"verif/internal/g"
 	"verif/internal/lat"
 	"verif/internal/shape"
 )
@@ -185,6 +186,13 @@ func otherRender(i int) {
 	}
 }
 
+func modelDesc(n *shape.Node, many string) string {
+	if many != "" {
+		return many
+	}
+	return n.String()
+}
+
 func TestDeterministicAcrossConfigurations(t *testing.T) {
 	rec := ev.Get()
 	defer runtime.GOMAXPROCS(runtime.GOMAXPROCS(0))
@@ -200,7 +208,44 @@ func TestDeterministicAcrossConfigurations(t *testing.T) {
 		var run func(mode int) string
 		var rname, sink string
 		var cells int
-		if dim == 3 {
+		manyDesc := ""
+		if dim == 3 && rapid.IntRange(0, 4).Draw(t, "many-parts") == 0 {
+			// a model made of many small parts (an extruded / revolved 2D union of dozens of operands
+			// with touching or overlapping boxes) at a fine resolution: every evaluation walks shared
+			// structure of the model while all the CPU workers are busy
+			np := rapid.IntRange(8, 60).Draw(t, "parts")
+			pitch := g.F(1.2, 2.2).Draw(t, "pitch")
+			round := rapid.Bool().Draw(t, "round-parts")
+			var parts []sdf.SDF2
+			for i := 0; i < np; i++ {
+				var part sdf.SDF2
+				if round {
+					part, _ = sdf.Circle2D(1)
+				} else {
+					part = sdf.Box2D(v2.Vec{X: 1.6, Y: 1.4}, 0.2)
+				}
+				y := pitch * float64(i)
+				parts = append(parts, sdf.Transform2D(part, sdf.Translate2d(v2.Vec{X: 3, Y: y})), sdf.Transform2D(part, sdf.Translate2d(v2.Vec{X: 3 + pitch, Y: y + pitch/2})))
+			}
+			var model sdf.SDF3
+			how := rapid.SampledFrom([]string{"extrude", "extrude", "revolve"}).Draw(t, "how")
+			if how == "extrude" {
+				model = sdf.Extrude3D(sdf.Union2D(parts...), 0.5)
+			} else {
+				model, _ = sdf.Revolve3D(sdf.Union2D(parts...))
+			}
+			n = &shape.Node{Op: "sphere", P: []float64{float64(np), pitch}} // stands for the description only
+			rname = "mcu"
+			sink = rapid.SampledFrom([]string{"triangles", "stl", "3mf"}).Draw(t, "sink")
+			cells = rapid.IntRange(60, ev.Pick(200, 400)).Draw(t, "fine-cells")
+			if how == "revolve" {
+				cells = rapid.IntRange(40, ev.Pick(90, 160)).Draw(t, "fine-cells-revolve")
+			}
+			manyDesc = fmt.Sprintf("%s of a 2D union of %d parts (round=%v, pitch %v)", how, 2*np, round, pitch)
+			run = func(mode int) string {
+				return out3(t, &lat.Perturb3{S: model, Mode: mode}, rname, cells, sink, dir)
+			}
+		} else if dim == 3 {
 			n = shape.Gen3(t, shape.Opts{S: S, Depth: rapid.IntRange(0, 2).Draw(t, "depth"), Grammar: shape.Lipschitz, NoPoly: true, SolidUnion2: true})
 			b, err := shape.Build(n)
 			if err != nil {
@@ -257,6 +302,25 @@ func TestDeterministicAcrossConfigurations(t *testing.T) {
 			for i := 0; i < before; i++ {
 				otherRender(hist + 5*i + ci)
 			}
+			// an earlier render may have gone to the very file the measured render writes: another,
+			// larger model under the same name (re-running a changed design)
+			if sink != "triangles" && sink != "lines" && rapid.IntRange(0, 2).Draw(t, l+"earlier-render-to-the-same-file") == 0 {
+				switch sink {
+				case "stl":
+					sp, _ := sdf.Sphere3D(3)
+					render.ToSTL(sp, filepath.Join(dir, "o.stl"), render.NewMarchingCubesOctree(cells+30))
+				case "3mf":
+					sp, _ := sdf.Sphere3D(3)
+					render.To3MF(sp, filepath.Join(dir, "o.3mf"), render.NewMarchingCubesOctree(cells+30))
+				case "dxf":
+					c, _ := sdf.Circle2D(3)
+					render.ToDXF(c, filepath.Join(dir, "o.dxf"), render.NewMarchingSquaresUniform(2*cells+50))
+				case "svg":
+					c, _ := sdf.Circle2D(3)
+					render.ToSVG(c, filepath.Join(dir, "o.svg"), render.NewMarchingSquaresUniform(2*cells+50))
+				}
+				rec.Add("config:earlier-render-to-the-same-file", 1)
+			}
 			var wg sync.WaitGroup
 			stop := make(chan struct{})
 			for i := 0; i < during; i++ {
@@ -280,13 +344,18 @@ func TestDeterministicAcrossConfigurations(t *testing.T) {
 			close(stop)
 			wg.Wait()
 			if got != base {
-				rec.Violation(t, "C09:"+rname+":"+sink+":differs-from-baseline", "model %s, renderer %s, %d cells, sink %s: baseline (GOMAXPROCS=1, no perturbation, no history) gave [%s]; with GOMAXPROCS=%d perturbation mode %d, %d preceding and %d concurrent renders it gave [%s]", n, rname, cells, sink, base, procs, mode, before, during, got)
+				rec.Violation(t, "C09:"+rname+":"+sink+":differs-from-baseline", "model %s, renderer %s, %d cells, sink %s: baseline (GOMAXPROCS=1, no perturbation, no history) gave [%s]; with GOMAXPROCS=%d perturbation mode %d, %d preceding and %d concurrent renders it gave [%s]", modelDesc(n, manyDesc), rname, cells, sink, base, procs, mode, before, during, got)
 			}
 			rec.Add(fmt.Sprintf("config:gomaxprocs=%d", procs), 1)
 			rec.Add(fmt.Sprintf("config:concurrent=%d", during), 1)
 		}
-		rec.Case(true, ev.Key(n.String(), rname, cells, sink), "det:"+rname, "det:"+sink)
-		rec.Sample("det:"+rname+":"+sink, map[string]any{"program": n.String(), "renderer": rname, "cells": cells, "sink": sink, "configurations": nconf, "baseline": base})
+		descr := n.String()
+		if manyDesc != "" {
+			descr = manyDesc
+			rec.Label("det:many-part-model")
+		}
+		rec.Case(true, ev.Key(descr, rname, cells, sink), "det:"+rname, "det:"+sink)
+		rec.Sample("det:"+rname+":"+sink, map[string]any{"program": descr, "renderer": rname, "cells": cells, "sink": sink, "configurations": nconf, "baseline": base})
 	})
 }
 
